@@ -694,8 +694,15 @@ def v_sqrt(x):
             rn, rd = math.isqrt(fr.numerator), math.isqrt(fr.denominator)
             if rn * rn == fr.numerator and rd * rd == fr.denominator:
                 return SymFloat(real_const(fractions.Fraction(rn, rd)), b_or(x.nan, x.ninf), x.pinf, False)
-    r = z3.Real(ctx.fresh("sqrt"))
-    ctx.define(z3.And(r >= 0, z3.Implies(x.val >= 0, r * r == x.val), z3.Implies(x.val < 0, r == 0)))
+    # sqrt is a function: the same argument term gets the same symbol
+    memo = ctx.__dict__.setdefault("_sqrt_memo", {})
+    key = x.val.get_id()
+    if key in memo:
+        r = memo[key][0]
+    else:
+        r = z3.Real(ctx.fresh("sqrt"))
+        ctx.define(z3.And(r >= 0, z3.Implies(x.val >= 0, r * r == x.val), z3.Implies(x.val < 0, r == 0)))
+        memo[key] = (r, x.val)
     neg = _fold(z3.simplify(x.val < 0))
     return SymFloat(r, b_or(x.nan, x.ninf, b_and(b_not(x.pinf), neg)), x.pinf, False)
 
@@ -704,8 +711,14 @@ def v_cbrt_pow(x):
     """x ** (1/3) with NumPy semantics (NaN for negative x)."""
     x = lift(x)
     ctx = core.current()
-    r = z3.Real(ctx.fresh("cbrt"))
-    ctx.define(z3.And(r >= 0, z3.Implies(x.val >= 0, r * r * r == x.val), z3.Implies(x.val < 0, r == 0)))
+    memo = ctx.__dict__.setdefault("_cbrt_memo", {})
+    key = x.val.get_id()
+    if key in memo:
+        r = memo[key][0]
+    else:
+        r = z3.Real(ctx.fresh("cbrt"))
+        ctx.define(z3.And(r >= 0, z3.Implies(x.val >= 0, r * r * r == x.val), z3.Implies(x.val < 0, r == 0)))
+        memo[key] = (r, x.val)
     neg = _fold(z3.simplify(x.val < 0))
     return SymFloat(r, b_or(x.nan, x.ninf, b_and(b_not(x.pinf), neg)), x.pinf, False)
 
